@@ -105,6 +105,8 @@ def main(argv):
         rep.extra['compiled'] = len(results)
     finally:
         wd.cleanup()
+    import transcription
+    transcription.report(rep, ['multi_client_selector'])
     gate = proof_gate('C10')
     return rep.finish(gate, 'generated shells (half of them with a multi-client port and two registered clients); per shell: all events '
                       'bound, then each single user-side event of every exposed port left unbound (every direction, every client), then '
